@@ -85,12 +85,12 @@ func (t *c29term) comparable() bool {
 func (t *c29term) embeddable() bool {
 	switch t.op {
 	case "basic":
-		return true
+		return t.n != 26 // unsafe.Pointer cannot be embedded
 	case "named":
 		return c29prelude[t.n].under != "ptr"
 	case "ptr":
 		k := t.kids[0]
-		return k.op == "basic" || (k.op == "named" && c29prelude[k.n].under != "ptr" && c29prelude[k.n].under != "iface")
+		return (k.op == "basic" && k.n != 26) || (k.op == "named" && c29prelude[k.n].under != "ptr" && c29prelude[k.n].under != "iface")
 	}
 	return false
 }
